@@ -92,20 +92,30 @@ def check_pipeline(repo: Repo, where: str) -> tuple[int, list[tuple[str, str]]]:
             rep.__dict__["tag"] = tag
         return rep
 
-    trivia_kinds = {
-        "none": {},
-        "whitespace": lambda: {"WHITESPACE": cm.new("Rule", "WHITESPACE", cm.new("Choice", cm.new("String", " "), cm.new("String", "\t")), SIL)},
-        "comment": lambda: {"COMMENT": cm.new("Rule", "COMMENT", cm.new("Sequence", cm.new("String", "#"), cm.new("String", "!")), SIL)},
-        "both": lambda: {"WHITESPACE": cm.new("Rule", "WHITESPACE", cm.new("Choice", cm.new("String", " "), cm.new("String", "\t")), SIL),
-                         "COMMENT": cm.new("Rule", "COMMENT", cm.new("Sequence", cm.new("String", "#"), cm.new("String", "!")), SIL)},
-        "loud whitespace": lambda: {"WHITESPACE": cm.new("Rule", "WHITESPACE", cm.new("Choice", cm.new("String", " "), cm.new("String", "\t")), 0)},
-        "sequence whitespace": lambda: {"WHITESPACE": cm.new("Rule", "WHITESPACE", cm.new("Sequence", cm.new("String", "a"), cm.new("String", "b")), SIL)},
-    }
+    def ws_rule(kind: str) -> Obj | None:
+        if kind == "absent":
+            return None
+        if kind == "silent sequence":
+            return cm.new("Rule", "WHITESPACE", cm.new("Sequence", cm.new("String", "a"), cm.new("String", "b")), SIL)
+        return cm.new("Rule", "WHITESPACE", cm.new("Choice", cm.new("String", " "), cm.new("String", "\t")), SIL if kind == "silent choice" else 0)
+
+    def comment_rule(kind: str) -> Obj | None:
+        if kind == "absent":
+            return None
+        return cm.new("Rule", "COMMENT", cm.new("Sequence", cm.new("String", "#"), cm.new("String", "!")), SIL if kind == "silent" else 0)
+
+    # every combination of the two trivia rules: the fused rule stands for the whole
+    # loop WHITESPACE* ~ (COMMENT ~ WHITESPACE*)*, so it may only exist for a lone silent rule
+    trivia_kinds = {}
+    for wk in ("absent", "silent choice", "loud choice", "silent sequence"):
+        for ck in ("absent", "silent", "loud"):
+            trivia_kinds[f"WHITESPACE {wk}, COMMENT {ck}"] = (wk, ck)
     mods = {"": 0, "_": SIL, "@": ATO, "$": COM, "!": NON}
     for tkind, mk in trivia_kinds.items():
         for msym, mbits in mods.items():
             n += 1
-            trivia = mk() if callable(mk) else {}
+            wk, ck = mk
+            trivia = {k: v for k, v in (("WHITESPACE", ws_rule(wk)), ("COMMENT", comment_rule(ck))) if v is not None}
             r = cm.new("Rule", "r", skip_idiom(), mbits)
             tagged = cm.new("Rule", "t", cm.new("Sequence", cm.new("Identifier", "s", tag="lab"), cm.new("String", "z")), 0)
             silent = cm.new("Rule", "s", cm.new("String", "q"), SIL)
@@ -131,7 +141,7 @@ def check_pipeline(repo: Repo, where: str) -> tuple[int, list[tuple[str, str]]]:
                 continue
             got = shape(out_r.__dict__.get("expression"))
             # (b) atomic_only: the search node only where no trivia can be matched inside the rule
-            trivia_defined = tkind != "none"
+            trivia_defined = bool(trivia)
             atomic = bool(mbits & (ATO | COM))
             may_skip = atomic or not trivia_defined
             is_skip = isinstance(got, tuple) and got[0] == "SkipUntil"
@@ -150,7 +160,8 @@ def check_pipeline(repo: Repo, where: str) -> tuple[int, list[tuple[str, str]]]:
                 bad.append(("a tag is lost", f"{desc}: t = {{ #lab = s ~ \"z\" }} becomes {tshape}"))
             # (d) SKIP exactly for a lone silent trivia rule
             has_skip = "SKIP" in table
-            want_skip = tkind in ("whitespace", "comment")
+            lone = (wk, ck) if "absent" in (wk, ck) and (wk, ck) != ("absent", "absent") else None
+            want_skip = lone is not None and (lone[0] == "silent choice" or lone[1] == "silent")
             if has_skip and not want_skip:
                 bad.append(("a SKIP rule is fused where the trivia is not a lone silent rule", f"{desc}: SKIP = {shape(table['SKIP'].__dict__.get('expression'))}"))
             if has_skip:
@@ -158,11 +169,11 @@ def check_pipeline(repo: Repo, where: str) -> tuple[int, list[tuple[str, str]]]:
                 if sk.__dict__.get("modifier") != (SIL | ATO):
                     bad.append(("the fused SKIP rule is not silent and atomic", f"{desc}: modifier {sk.__dict__.get('modifier')}"))
                 se = sk.__dict__.get("expression")
-                if tkind == "comment":
+                if lone is not None and lone[1] == "silent":
                     src = trivia["COMMENT"].__dict__.get("expression")
                     if shape(se) != ("Repeat", shape(src)):
                         bad.append(("the fused SKIP rule is not the repetition of the COMMENT body", f"{desc}: SKIP = {shape(se)}"))
-                if tkind == "whitespace":
+                if lone is not None and lone[0] == "silent choice":
                     if not (isinstance(se, Obj) and "OptimizedChoice" in se.kinds):
                         bad.append(("the fused SKIP rule is not the squashed WHITESPACE choice", f"{desc}: SKIP = {shape(se)}"))
                     else:
